@@ -104,10 +104,12 @@ func runResegmenterCase(c *runner.Ctx, idx int, cs caseSpec) {
 			}
 		}
 	} else {
-		in := makeFragInput(c, fragGenOptions{allowGap: true, allowNoStyp: true}, c.Rand.Chance(1, 5))
+		hostile := c.Rand.Chance(1, 6)
+		in := makeFragInput(c, fragGenOptions{allowGap: true, allowNoStyp: true, hostile: hostile}, c.Rand.Chance(1, 5))
 		if in == nil {
 			return
 		}
+		c.Seen("resegmenter_input_values", fmt.Sprintf("hostile=%v", hostile))
 		data, want, name, gopDur, total, gapped = in.built.Bytes, in.want, in.label, in.gopDur, in.total, in.gapped
 		cls = "generated"
 		c.Seen("resegmenter_input", fmt.Sprintf("%s gapped=%v styp=%v", want.Kind, gapped, in.h.Segments[0].Styp))
